@@ -65,13 +65,12 @@ Proof.
   destruct (pf && sh) eqn:E1; [exact H|].
   destruct bs as [|b0 bs]; [exact H|].
   destruct sh; [exact H|].
+  destruct (sk (eps s z)) as [k|] eqn:Esk; cbn [is_some negb]; [|exact H].
   destruct (cred s z) as [|c] eqn:Ec; [destruct pf; exact H|].
-  unfold stamp_send. cbn [eps set_cred].
-  destruct (sk (eps s z)) as [k|] eqn:Esk; cbn [fst].
-  - unfold emit, net_send. cbn [cut set_gsent set_ep set_cred].
-    destruct (cut s z) eqn:Ecut; destruct x, z; dsimp;
-      rewrite ?Esk, ?Ewr, ?Ec, ?Ecut in *; fin H.
-  - destruct x, z; dsimp; rewrite ?Esk, ?Ewr, ?Ec in *; fin H.
+  unfold stamp_send. cbn [eps set_cred]. rewrite Esk. cbn [fst].
+  unfold emit, net_send. cbn [cut set_gsent set_ep set_cred].
+  destruct (cut s z) eqn:Ecut; destruct x, z; dsimp;
+    rewrite ?Esk, ?Ewr, ?Ec, ?Ecut in *; fin H.
 Qed.
 
 Lemma shutdown_inv s z x : dirinv s x -> dirinv (fst (op_shutdown s z)) x.
@@ -500,13 +499,13 @@ Proof.
   destruct e; cbn [step].
   - (* TryWrite *) unfold op_try_write, stamp_send, emit, net_send.
     destruct (wr (eps s x0)) as [[|]|]; destruct bs; cbn; rewrite ?app_nil_r; auto;
-      destruct (cred s x0); cbn; rewrite ?app_nil_r; auto;
-      destruct (sk (eps s x0)); cbn; rewrite ?app_nil_r; auto;
+      destruct (sk (eps s x0)) eqn:Esk; cbn; rewrite ?app_nil_r; auto;
+      destruct (cred s x0); cbn; rewrite ?Esk; cbn; rewrite ?app_nil_r; auto;
       destruct (cut s x0); destruct x, x0; cbn; rewrite ?bytes_of_snoc, ?app_nil_r; auto.
   - (* Write *) unfold op_try_write, stamp_send, emit, net_send.
     destruct (wr (eps s x0)) as [[|]|]; destruct bs; cbn; rewrite ?app_nil_r; auto;
-      destruct (cred s x0); cbn; rewrite ?app_nil_r; auto;
-      destruct (sk (eps s x0)); cbn; rewrite ?app_nil_r; auto;
+      destruct (sk (eps s x0)) eqn:Esk; cbn; rewrite ?app_nil_r; auto;
+      destruct (cred s x0); cbn; rewrite ?Esk; cbn; rewrite ?app_nil_r; auto;
       destruct (cut s x0); destruct x, x0; cbn; rewrite ?bytes_of_snoc, ?app_nil_r; auto.
   - (* Shutdown *) unfold op_shutdown, stamp_send, emit, net_send.
     destruct (wr (eps s x0)) as [[|]|]; cbn; rewrite ?app_nil_r; auto;
@@ -672,9 +671,9 @@ Proof.
   destruct (pf && sh) eqn:E1; [exact H|].
   destruct bs as [|b0 bs]; [exact H|].
   destruct sh; [exact H|].
+  destruct (sk (eps s z)) as [k|] eqn:Esk; cbn [is_some negb]; [|exact H].
   destruct (cred s z) as [|c] eqn:Ec; [destruct pf; exact H|].
-  unfold stamp_send. cbn [eps set_cred].
-  destruct (sk (eps s z)) as [k|] eqn:Esk; cbn [fst]; [|exact H].
+  unfold stamp_send. cbn [eps set_cred]. rewrite Esk. cbn [fst].
   unfold emit, net_send. cbn [cut set_gsent set_ep set_cred].
   destruct (cut s z) eqn:Ecut; destruct y, z; exsimp Esk H.
 Qed.
@@ -837,12 +836,25 @@ Proof. intros s. pose proof (reach_inv cp loop es x) as H. destruct H. assumptio
 
 Lemma c02_wouldblock_lemma s x bs :
   wr (eps s x) = Some false -> bs <> [] ->
-  (snd (step s (TryWrite x bs)) = RErr WouldBlock <-> cred s x = 0).
+  (snd (step s (TryWrite x bs)) = RErr WouldBlock <-> cred s x = 0 /\ sk (eps s x) <> None).
 Proof.
   intros Hw Hbs. cbn [step]. unfold op_try_write. rewrite Hw. cbn [andb].
   destruct bs as [|b0 bs]; [congruence|].
-  destruct (cred s x) as [|c]; cbn; [tauto|].
-  destruct (stamp_send _ _ _); cbn; split; intros; discriminate.
+  destruct (sk (eps s x)) as [k|] eqn:Esk; cbn [is_some negb].
+  - destruct (cred s x) as [|c]; cbn; [split; [intros _; split; [reflexivity|discriminate]|reflexivity]|].
+    destruct (stamp_send _ _ _); cbn; split; try (intros [? _]); discriminate.
+  - cbn. split; [discriminate|intros [_ H]; congruence].
+Qed.
+
+(* after a reset (the socket entry is gone) a write never waits for credits: the writer that
+   was blocked is unblocked with an error (fix e5646f9) *)
+Lemma c02_reset_unblocks_lemma s x bs pf :
+  sk (eps s x) = None ->
+  snd (op_try_write pf s x bs) <> RPending /\ snd (op_try_write pf s x bs) <> RErr WouldBlock.
+Proof.
+  intros Hs. unfold op_try_write. destruct (wr (eps s x)) as [sh|]; [|cbn; split; discriminate].
+  destruct (pf && sh); [cbn; split; discriminate|]. destruct bs; [cbn; split; discriminate|].
+  destruct sh; [cbn; split; discriminate|]. rewrite Hs. cbn. split; discriminate.
 Qed.
 
 (* ---- completeness: repeated reads end with EOF after every accepted byte ------------------ *)
@@ -937,11 +949,11 @@ Lemma step_cap s e : cap (fst (step s e)) = cap s.
 Proof.
   destruct e; cbn [step].
   - unfold op_try_write, stamp_send, emit, net_send.
-    destruct (wr (eps s x)) as [[|]|]; destruct bs; cbn; auto; destruct (cred s x); cbn; auto;
-      destruct (sk (eps s x)); cbn; auto; destruct (cut s x); cbn; auto.
+    destruct (wr (eps s x)) as [[|]|]; destruct bs; cbn; auto; destruct (sk (eps s x)) eqn:Esk; cbn; auto;
+      destruct (cred s x); cbn; rewrite ?Esk; cbn; auto; destruct (cut s x); cbn; auto.
   - unfold op_try_write, stamp_send, emit, net_send.
-    destruct (wr (eps s x)) as [[|]|]; destruct bs; cbn; auto; destruct (cred s x); cbn; auto;
-      destruct (sk (eps s x)); cbn; auto; destruct (cut s x); cbn; auto.
+    destruct (wr (eps s x)) as [[|]|]; destruct bs; cbn; auto; destruct (sk (eps s x)) eqn:Esk; cbn; auto;
+      destruct (cred s x); cbn; rewrite ?Esk; cbn; auto; destruct (cut s x); cbn; auto.
   - unfold op_shutdown, stamp_send, emit, net_send.
     destruct (wr (eps s x)) as [[|]|]; cbn; auto; destruct (sk (eps s x)); cbn; auto; destruct (cut s x); cbn; auto.
   - unfold op_drop_w, stamp_send, emit, net_send.
